@@ -4,6 +4,7 @@ import (
 	"time"
 
 	"verif/harness/core"
+	"verif/harness/drive/zpool"
 )
 
 // selfTest: (i) the as-coded cacheStoreOrLoad model must violate CacheStable;
@@ -84,5 +85,5 @@ func selfTest(ctx *core.Ctx) error {
 		}
 	}
 	ctx.Logf("self-test (iv): every action of the model is taken")
-	return nil
+	return zpool.SelfTest(ctx)
 }
